@@ -6,6 +6,10 @@ extern "C" {
 #include "dma_types.h"
 #include "dma_protos.h"
 }
+#define BRIDGE_WANT_Dma
+#define BRIDGE_WANT_Dma_Channel
+#define BRIDGE_WANT_Ahbm
+#define BRIDGE_WANT_Ahbm_Channel
 #include "dma_bridge.inc"
 namespace {
 struct Rig {
